@@ -6,6 +6,7 @@ import (
 	"go/token"
 	"regexp"
 	"runtime"
+	"strconv"
 	"strings"
 )
 
@@ -91,12 +92,21 @@ func ParseFile(inputPath string) (areas []textArea, err error) {
 					continue
 				}
 				currentTag := field.Tag.Value
+				tagText := currentTag[1 : len(currentTag)-1] // 去掉 ``
+				if currentTag[0] == '"' {
+					// tag 为解释型字符串(如: "json:\"y\""), 需要先反转义; 结果会写成 `` 字符串
+					unquoted, unquoteErr := strconv.Unquote(currentTag)
+					if unquoteErr != nil || strings.Contains(unquoted, "`") {
+						continue
+					}
+					tagText = unquoted
+				}
 				area := textArea{
 					Start:      int(field.Pos()),
 					End:        int(field.End()),
 					TagStart:   int(field.Tag.Pos()),
 					TagEnd:     int(field.Tag.End()),
-					CurrentTag: currentTag[1 : len(currentTag)-1], // 去掉 ``
+					CurrentTag: tagText,
 					InjectTag:  tag,
 				}
 				areas = append(areas, area)
